@@ -60,7 +60,7 @@ def bisectRight (a : List Nat) (x : Nat) : Nat := bisectRightAux a x (a.length +
 /-! ### `linear_to_ssa` / `ssa_to_linear` -/
 
 /-- pop the positions `cs` one after the other (`ids.pop(c)`); `none` = `IndexError` -/
-def popMany : List Nat → List Nat → Option (List Nat × List Nat)
+def popMany {α : Type} : List α → List Nat → Option (List α × List α)
   | ids, [] => some ([], ids)
   | ids, c :: cs =>
     match ids[c]? with
@@ -257,7 +257,7 @@ def fromSsaPath (n : Nat) (path : Path) : Option (List (List Nat) × List (List 
 def fromLinearLoop : List (List Nat) → Path → Option (List (List Nat) × List (List Nat))
   | nodes, [] => some ([], nodes)
   | nodes, p :: rest =>
-    match popMany' nodes (sortDesc p) with
+    match popMany nodes (sortDesc p) with
     | none => none
     | some (merge, nodes') =>
       match mergeNodes merge with
@@ -266,16 +266,6 @@ def fromLinearLoop : List (List Nat) → Path → Option (List (List Nat) × Lis
         match fromLinearLoop (nodes' ++ [x]) rest with
         | none => none
         | some (ps, left) => some (if isNew then x :: ps else ps, left)
-where
-  popMany' : List (List Nat) → List Nat → Option (List (List Nat) × List (List Nat))
-    | nodes, [] => some ([], nodes)
-    | nodes, c :: cs =>
-      match nodes[c]? with
-      | none => none
-      | some x =>
-        match popMany' (nodes.eraseIdx c) cs with
-        | none => none
-        | some (xs, nodes') => some (x :: xs, nodes')
 
 def fromLinearPath (n : Nat) (path : Path) : Option (List (List Nat) × List (List Nat)) :=
   fromLinearLoop ((List.range n).map fun i => [i]) path
